@@ -214,6 +214,9 @@ func cmdCheck(args []string) int {
 		}
 		for _, i := range idx {
 			ok, msg := rep.validateSample(spec, res.Samples[i], known, i)
+			for retry := 0; !ok && retry < 2; retry++ { // a genuine mismatch is deterministic; a loaded machine is not
+				ok, msg = rep.validateSample(spec, res.Samples[i], known, i)
+			}
 			if !ok {
 				inconcl = append(inconcl, fmt.Sprintf("%s: ENGINE-NATIVE-MISMATCH on trace %v: %s", spec.Name, res.Samples[i].Trace, msg))
 			} else {
